@@ -250,7 +250,9 @@ func (pm *Manager) LoadPeerstore() (addrs []ma.Multiaddr) {
 }
 
 // SavePeerstore stores a slice of multiaddresses in the peerstore file, one
-// per line.
+// per line. The lines are written to a temporary file which then replaces
+// the peerstore file, so that an interrupted save leaves the previous file
+// in place rather than a truncated one.
 func (pm *Manager) SavePeerstore(pinfos []peer.AddrInfo) error {
 	if pm.peerstorePath == "" {
 		return nil
@@ -259,7 +261,8 @@ func (pm *Manager) SavePeerstore(pinfos []peer.AddrInfo) error {
 	pm.peerstoreLock.Lock()
 	defer pm.peerstoreLock.Unlock()
 
-	f, err := os.Create(pm.peerstorePath)
+	tmpPath := pm.peerstorePath + ".tmp"
+	f, err := os.Create(tmpPath)
 	if err != nil {
 		logger.Errorf(
 			"could not save peer addresses to %s: %s",
@@ -268,8 +271,31 @@ func (pm *Manager) SavePeerstore(pinfos []peer.AddrInfo) error {
 		)
 		return err
 	}
-	defer f.Close()
 
+	err = writePeerstore(f, pinfos)
+	if err == nil {
+		err = f.Sync()
+	}
+	if cerr := f.Close(); err == nil {
+		err = cerr
+	}
+	if err == nil {
+		err = os.Rename(tmpPath, pm.peerstorePath)
+	}
+	if err != nil {
+		os.Remove(tmpPath)
+		logger.Errorf(
+			"could not save peer addresses to %s: %s",
+			pm.peerstorePath,
+			err,
+		)
+		return err
+	}
+	return nil
+}
+
+// writePeerstore writes the multiaddresses of the given peers, one per line.
+func writePeerstore(f *os.File, pinfos []peer.AddrInfo) error {
 	for _, pinfo := range pinfos {
 		if len(pinfo.Addrs) == 0 {
 			logger.Warn("address info does not have any multiaddresses")
